@@ -51,6 +51,9 @@ class ScriptJob(Job):
     def get_machine_state(self) -> MachineState:
         return self._machine.get_state()
 
+    def prepare(self):
+        self._machine.prepare()
+
     def execute(self):
         if self._program is not None:
             self._machine.reset()
